@@ -445,11 +445,14 @@ func TestVerifC17(t *testing.T) {
 					judge(lifeCfg{Ops: []string{a, b}, StopAt: at, Cause: cause, Peers: 1, Reader: at == 1})
 				}
 			}
-			if vh.Thorough() {
-				for _, c := range names {
-					for at := 0; at <= 3; at++ {
-						judge(lifeCfg{Ops: []string{a, b, c}, StopAt: at, Cause: "goaway", Peers: 1})
-					}
+			// triples: all in thorough; in quick a third call from a core set
+			third := names
+			if !vh.Thorough() {
+				third = []string{"RequestWant", "Kill", "SetConf", "GetPeers", "ReaderRead", "NewPeer"}
+			}
+			for _, c := range third {
+				for at := 0; at <= 3; at++ {
+					judge(lifeCfg{Ops: []string{a, b, c}, StopAt: at, Cause: "goaway", Peers: 1})
 				}
 			}
 		}
